@@ -6,17 +6,25 @@ SRC=/tmp/mut/$P-out
 WT=/tmp/seedwt
 export CARGO_NET_OFFLINE=true
 if [ ! -d $WT ]; then git -C /repo worktree add -q --detach $WT HEAD; else git -C $WT checkout -q --detach $(git -C /repo rev-parse HEAD) 2>/dev/null; git -C $WT checkout -q -- . ; git -C $WT clean -fdq tests/; fi
-cp $SRC/demo_$K.rs $WT/tests/seed_demo.rs
+VDIR=${VERIF_DIR:-/verif}
 cd $WT
+if [ -f $SRC/demo_$K.rs ]; then
+  cp $SRC/demo_$K.rs $WT/tests/seed_demo.rs
+  DEMO="cargo test --offline --test seed_demo"
+else
+  git apply $SRC/demo_$K.diff   # demo delivered as added tests (bindings crate)
+  DEMO="cargo test --offline -p cooklang-bindings"
+fi
 echo "--- demo on unchanged code"
-cargo test --offline --test seed_demo 2>&1 | grep -E "^test result|error\[" | head -3
+$DEMO 2>&1 | grep -E "^test result|error\[" | head -3
 if ! git apply --check $SRC/patch_$K.diff 2>/dev/null; then echo "PATCH DOES NOT APPLY on current HEAD"; git apply --3way $SRC/patch_$K.diff 2>&1 | tail -2; else git apply $SRC/patch_$K.diff; fi
 echo "--- demo with the change"
-cargo test --offline --test seed_demo 2>&1 | grep -E "^test result|error\[" | head -3
+$DEMO 2>&1 | grep -E "^test result|error\[" | head -3
 rm -f tests/seed_demo.rs
+if [ -f $SRC/demo_$K.diff ]; then git apply -R $SRC/demo_$K.diff; fi
 echo "--- existing suite with the change"
 cargo test --workspace --no-fail-fast --offline 2>&1 | grep -E "^test result" | awk '{p+=$4; f+=$6} END {print "passed="p" failed="f}'
-cd /verif
+cd $VDIR
 for Q in $P "$@"; do
   echo "--- ./check $Q quick against the changed tree"
   VERIF_REPO=$WT ./check $Q quick 2>&1 | tail -4
